@@ -22,6 +22,8 @@ import (
 	"time"
 
 	"github.com/KevoDB/kevo/pkg/common/iterator"
+	"github.com/KevoDB/kevo/pkg/engine"
+	"github.com/KevoDB/kevo/pkg/verifhook"
 	"github.com/KevoDB/kevo/pkg/wal"
 )
 
@@ -32,6 +34,13 @@ func init() {
 func genScanConc(g *gen, n int, tier string, w *bufio.Writer) {
 	for c := 0; c < n; c++ {
 		fmt.Fprintf(w, "# case %d\n", c)
+		if c%4 == 3 {
+			// seek storm: while writers insert new keys (the writer yields between the level links of an insert), range scans are
+			// POSITIONED again and again on keys that existed before: each must land exactly on its key
+			fmt.Fprintf(w, "scan seed=%d stable=%d mem=%d mode=seeks kind=range writers=%d flush=0\n", g.intn(1<<30), g.pick(40, 200, 600),
+				1<<20, g.pick(1, 2))
+			continue
+		}
 		fmt.Fprintf(w, "scan seed=%d stable=%d mem=%d mode=%s kind=%s writers=%d flush=%d\n", g.intn(1<<30), g.pick(10, 40, 200, 600),
 			g.pick(1<<20, 1<<20, 4096, 1500), g.pickS("steps", "steps", "threads"), g.pickS("full", "full", "range", "tx"), g.pick(1, 2, 4), g.intn(2))
 	}
@@ -67,12 +76,15 @@ func scanConcScenario(r *runner, ws []string) (out string) {
 			return "bad put " + errTok(err)
 		}
 		stable[string(k)] = v
-		if g.chance(1, 40) {
+		if mode != "seeks" && g.chance(1, 40) { // (seek storm: the stable keys stay in the active memtable, next to the inserts)
 			e.FlushImMemTables()
 		}
 	}
 	for i := 0; i < 30; i++ {
 		e.Put(vk(i), []byte("V0"))
+	}
+	if mode == "seeks" {
+		return seekStorm(e, g, nStable, writers, sk)
 	}
 	lo, hi := []byte(nil), []byte(nil)
 	if kind == "range" {
@@ -226,6 +238,77 @@ func scanConcScenario(r *runner, ws []string) (out string) {
 		return fmt.Sprintf("bad missing-keys n=%d first=%s (existed before the scan, not written during it) returned=%d writes=%d", missing, hx([]byte(first)), len(got), nWrites.Load())
 	}
 	return fmt.Sprintf("ok returned=%d writes=%d", len(got), nWrites.Load())
+}
+
+// seekStorm: see genScanConc. One insert at a time is PAUSED between two of its level links (hook site
+// skiplist.insert.level, the k-th hit of that insert); while it is paused a range scan is positioned on the stable key
+// right behind the key being inserted — the new node is then the last node before the target on every level it is linked
+// at, so the positioning search walks over it. Then the insert is released. (Deterministic companion of C18's step scheduler,
+// at engine level; a few free-running writers add ordinary contention.)
+func seekStorm(e *engine.EngineFacade, g *gen, nStable, writers int, sk func(int) []byte) string {
+	var nWrites atomic.Int64
+	var armed atomic.Int32  // hits of the armed insert still to pass before it is paused
+	var owner atomic.Int64  // goroutine token of the armed insert (0 = none)
+	paused := make(chan struct{}, 1)
+	release := make(chan struct{})
+	verifhook.Set(func(site string) {
+		if site != "skiplist.insert.level" || owner.Load() == 0 {
+			return
+		}
+		if armed.Add(-1) == 0 {
+			paused <- struct{}{}
+			<-release
+		}
+	})
+	defer verifhook.Set(nil)
+	bad := ""
+	seeks := 0
+	for seeks = 0; seeks < 1500 && bad == ""; seeks++ {
+		i := 1 + g.intn(nStable-1)
+		t := sk(2 * i)
+		newKey := []byte(fmt.Sprintf("s%05d.%04d", 2*i-1, seeks))
+		// the scan is CREATED first (creating it needs the storage lock, which the paused writer holds); it is positioned
+		// while the insert is paused (iterators run without the storage lock)
+		it, err := e.GetRangeIterator(t, nil)
+		if err != nil {
+			bad = "bad iterator " + errTok(err)
+			break
+		}
+		armed.Store(int32(1 + g.intn(4))) // pause before the 1st..4th level link (an insert of lower height just completes)
+		owner.Store(1)
+		done := make(chan struct{})
+		go func() {
+			e.Put(newKey, []byte("N"))
+			nWrites.Add(1)
+			close(done)
+		}()
+		isPaused := false
+		select {
+		case <-paused:
+			isPaused = true
+		case <-done:
+		case <-time.After(5 * time.Second):
+			bad = "bad hung insert"
+		}
+		owner.Store(0)
+		if bad == "" {
+			it.SeekToFirst()
+			switch {
+			case !it.Valid():
+				bad = fmt.Sprintf("bad missing-keys seek=%s landed=invalid (the key existed before the scan started; an insert of its left neighbour was in flight) seeks=%d", hx(t), seeks)
+			case !bytes.Equal(it.Key(), t):
+				bad = fmt.Sprintf("bad missing-keys seek=%s landed=%s (the key existed before the scan started; an insert of its left neighbour was in flight) seeks=%d", hx(t), hx(it.Key()), seeks)
+			}
+		}
+		if isPaused {
+			release <- struct{}{}
+			<-done
+		}
+	}
+	if bad != "" {
+		return bad
+	}
+	return fmt.Sprintf("ok returned=%d writes=%d", seeks, nWrites.Load())
 }
 
 func runScanConc(r *runner) {
